@@ -57,9 +57,11 @@ func (n node) buildStack(path string, o *buildOpts) stackage.Stack {
 			o.each(s, path)
 		}
 	}
+	var vals []any
 	for i, k := range n.Kids {
-		s.Push(k.build(fmt.Sprintf("%s.%d", path, i), o))
+		vals = append(vals, k.build(fmt.Sprintf("%s.%d", path, i), o))
 	}
+	fill(s, vals, fillMode(n.String()+path))
 	if o != nil && o.after != nil {
 		o.after(s, path)
 	}
